@@ -21,5 +21,5 @@ PROP = {'lean': 'MpsProps.C08',
                'list); histories keygen -> refresh* -> sign for FROST, FROST-Taproot, Doerner, CMP: key unchanged, consistency again, every share '
                'changed (t>0), no old/new mixture of a (t+1)-set reconstructs the key, old objects untouched, signing with refreshed material '
                'succeeds, a session with a stale signer yields no signature.',
- 'level_note': 'Real sessions are sampled (they cost up to seconds each); universality comes from the theorems about the formulas plus the '
+ 'level_note': 'Suite sess-deviate (sampled, judged): a Doerner refresh whose Sender enters with a share shifted by a scalar of its choice leaves the honest Receiver with a refusal or with the same group key (op keykept). Real sessions are sampled (they cost up to seconds each); universality comes from the theorems about the formulas plus the '
                'per-function differentials (suite alg) showing that the code computes those formulas.'}
